@@ -6,5 +6,9 @@ Keys2 == {<<"a">>, <<"d", "/", "b">>}
 Keys3 == {<<"a">>, <<"d", "/", "b">>, <<"a", "b">>}
 Pats5 == {<<"*">>, <<"a", "*">>, <<"d", "/", "*">>, <<"?">>, <<"*", "b">>, <<"x">>}
 Pats2 == {<<"*">>, <<"a", "*">>}
+\* keys that differ only by a trailing slash, and patterns ending in one
+KeysT == {<<"a">>, <<"a", "/">>}
+PatsT == {<<"*">>, <<"a", "/">>, <<"a", "*">>, <<"*", "/">>, <<"a">>}
+Keys1 == {<<"a">>}
 Bound == DepthBound(Depth)
 =============================================================================
